@@ -166,6 +166,13 @@ void Stats::processMsg(int sockfd) {
       OLOG << "Stats server error: closing file descriptor: "
            << ::strerror_r(errno, err_buf.data(), err_buf.size());
     }
+    // Every way out of this function, including the early return on a read
+    // error or timeout, has to give the thread slot back: ~Stats waits for the
+    // count to reach zero and aborts the process if it never does.
+    std::unique_lock<std::mutex> lock(thread_mutex_);
+    thread_count_--;
+    lock.unlock();
+    thread_exited_.notify_one();
   };
   char mode = 'a';
   char byte_buf;
@@ -216,10 +223,6 @@ void Stats::processMsg(int sockfd) {
     OLOG << "Stats server error: writing to socket: "
          << ::strerror_r(errno, err_buf.data(), err_buf.size());
   }
-  std::unique_lock<std::mutex> lock(thread_mutex_);
-  thread_count_--;
-  lock.unlock();
-  thread_exited_.notify_one();
 }
 
 std::unordered_map<std::string, int> Stats::getAll() {
